@@ -79,6 +79,8 @@ class ProtoExporter:
 
         # ExternalModule-id to Proto-ExternalModule dict
         self.ext_modules: Dict[int, vckt.ExternalModule] = dict()
+        # And the same, by (domain, name)
+        self.ext_modules_by_name: Dict[tuple, vckt.ExternalModule] = dict()
 
         # Default `domain` AKA package-name is the empty string
         self.pkg = vckt.Package(domain=domain or "")
@@ -162,8 +164,20 @@ class ProtoExporter:
         # ...
         pmod = export_external_module(emod)
 
+        # External modules are identified by their domain and name. Each identity is declared once:
+        # a second, identical definition shares the declaration, a differing one is a conflict.
+        key = (pmod.name.domain, pmod.name.name)
+        prior = self.ext_modules_by_name.get(key, None)
+        if prior is not None:
+            if prior != pmod:
+                msg = f"Cannot serialize {emod} due to a conflicting definition of `{key[0]}.{key[1]}`"
+                raise RuntimeError(msg)
+            self.ext_modules[id(emod)] = prior
+            return prior
+
         # Store references to the result, and return it
         self.ext_modules[id(emod)] = pmod
+        self.ext_modules_by_name[key] = pmod
         self.pkg.ext_modules.append(pmod)
         return pmod
 
